@@ -148,3 +148,27 @@ Proof.
   - apply denotes_f_eq.
 Qed.
 Print Assumptions C01_fast_search_is_the_specified_one.
+
+(* ... and on the strings themselves: what the model of one merger step (regex substitution of the marker by the
+   child's text + sanitize_smiles; tied to merge_int string-exactly on every node of every run) returns, read as a
+   SMILES, is the host's molecule with the marker atom replaced by the child's molecule -- whenever the decidable side
+   conditions of splice_str_check hold; the check evaluates them on every substitution of every run and reports how
+   many are covered *)
+From GV Require Import Proofs.SpliceStr.
+Theorem C01_merge_child_is_substitution :
+  forall sym nsym me child Mh Mk,
+  splice_str_check sym me child = true -> sem_str me = Some Mh -> sem_str child = Some Mk ->
+  exists p m q tp am tq a0 rest st c sk Me N1 N2 A2 B2,
+    find_marker sym me = Some (p, m, q) /\
+    merge_child me sym nsym child = MOk (p ++ child ++ q) /\
+    lexS p = Some tp /\ lexS m = Some [TAtom am] /\ lexS q = Some tq /\ lexS child = Some (TAtom a0 :: rest) /\
+    run pst0 tp = Some st /\ p_cur st = Some c /\ run pst0 (TAtom a0 :: rest) = Some sk /\
+    sem_str (p ++ child ++ q) = Some Me /\
+    m_atoms Mh = p_atoms st ++ am :: A2 /\
+    m_atoms Me = p_atoms st ++ m_atoms Mk ++ A2 /\
+    m_nbrs Mh = N1 ++ (Some c :: repeat None (a_h am)) :: N2 /\ length N1 = length (p_atoms st) /\
+    m_nbrs Me = map (map (option_map (ren st sk))) N1 ++ graft_nbrs st c (m_nbrs Mk) ++ map (map (option_map (ren st sk))) N2 /\
+    m_bonds Mh = p_bonds st ++ (c, length (p_atoms st), default_bond (nth c (p_atoms st) am) am) :: B2 /\
+    m_bonds Me = p_bonds st ++ (c, length (p_atoms st), link_bond st c a0) :: map (sh_bond st) (m_bonds Mk) ++ map (ren_bond st sk) B2.
+Proof. exact merge_child_sem. Qed.
+Print Assumptions C01_merge_child_is_substitution.
